@@ -174,7 +174,40 @@ PLANS_C19_C20 = {
     ),
 }
 
+# ------------------------------------------------------------------ C16 (pmap-builder)
+
+def run_C16(ctx, K):
+    b = K.go_build(ctx, "pmaptrace")
+    if not b:
+        return
+    q = ctx.quick()
+    def stream(name, args, coqmax, what):
+        cases = os.path.join(ctx.rundir, "cases_C16_%s.v" % name)
+        rep = K.run_tool(ctx, b, args + ["-coq", cases, "-coqmax", str(coqmax), "-seed", str(ctx.seed)],
+                         "pmap-" + name, timeout=3000)
+        if rep:
+            ctx.coq_cases += rep.get("coq_cases", 0)
+            K.run_cases(ctx, cases, "PMap.v~incrutil/pmap (%s)" % what, timeout=3000)
+    stream("exh", ["-mode", "exhaustive", "-len", "5" if q else "7", "-vals", "2" if q else "1"],
+           150 if q else 400, "exhaustive, 4 keys")
+    if not q:
+        stream("exh6", ["-mode", "exhaustive", "-len", "6", "-vals", "2"], 300, "exhaustive, 4 keys, 2 values")
+    stream("exh5", ["-mode", "exhaustive", "-nkeys", "5", "-len", "4" if q else "6", "-vals", "1"],
+           80 if q else 300, "exhaustive, 5 keys")
+    stream("br", ["-mode", "branching", "-len", "4" if q else "5", "-vals", "2" if q else "1"],
+           100 if q else 300, "operations on any earlier version")
+    stream("rnd", ["-mode", "random", "-n", str(tier_n(ctx, 200, 3000))], tier_n(ctx, 80, 600), "random")
+
+
+PLANS_C16 = {"C16": dict(run=run_C16,
+   assumptions=["theorems are about the Gallina model PMap.v; pointer identity is a parameter `same` assumed only to imply equality, executed as structural equality and as never-equal; the Go code is tied to the model by replaying exhaustive and random histories (tree shape included)",
+                "Reducer theorems assume an associative combine (as the package documents)",
+                "persistence of Go values is decided by the harness (re-read of all earlier versions after every operation), not by a theorem"],
+   trusted_base=TB_COMMON + ["verif hook /repo/incrutil/pmap/verif_hooks.go (read-only invariant check, preorder dump, sharing count)"],
+   checker_cmd="make -C coq && coqc theories/Properties/C16.v")}
+
 PLANS.update(PLANS_C19_C20)
+PLANS.update(PLANS_C16)
 
 for _pid in ENGINE_STREAMS:
     PLANS[_pid] = engine_plan(_pid)
